@@ -49,6 +49,14 @@ CHECKS = {
             "and the exact virtual instant of every return is compared with a small executable model (equalities on dyadic instants, not tolerances).",
             "DESIGN.md C15", "'Reply arrives' is read as 'reply is processed by the client thread'; exact arrival/expiry ties and negative "
             "timeouts are not generated."),
+    "C12": ("exploration",
+            "deterministic simulation: seeded thread schedules with source-line pre-emption (sys.settrace) over the real send path writing into a recording sink",
+            "Seeded search over interleavings of 2-3 sender threads (plus a re-entrant send from a proxy finalizer inside the transport write) with "
+            "a pre-emption point at every source line of the send hand-off; strategies random walk / bounded pre-emption / PCT / window widening. "
+            "Oracle on the recorded byte stream: whole contiguous frames, multiset equality (exactly once), per-thread order, distinct sequence "
+            "numbers, empty queue, free lock, no deadlock (scheduler detector).",
+            "DESIGN.md C12", "Seeded search, not exhaustive enumeration of the two-thread schedule space (that would be model checking); "
+            "depth-3 races are reached at roughly 1 in 10^4 schedules, so they need the thorough tier."),
 }
 
 NOT_APPLICABLE = {
